@@ -6,7 +6,7 @@ REPO=${1:-/repo}
 export GOFLAGS=-mod=mod GOPROXY=off GOSUMDB=off GOTOOLCHAIN=local
 unset GOWORK
 out=$(mktemp)
-(cd "$REPO" && go test -json -vet=off -count=1 -timeout 25m ./... ) > "$out" 2>/dev/null
+(cd "$REPO" && go test -json -vet=off -count=1 -timeout ${BASELINE_TIMEOUT:-25m} ./... ) > "$out" 2>/dev/null
 python3 - "$out" <<'PY'
 import json,sys
 passed=set()
